@@ -422,6 +422,10 @@ def run(prop: str, tier: str) -> int:
             for s in res["samples"][:1]:
                 rep.sample(s, cap=12)
         rep.add(family_molecules=fam)
+    if prop == "C03":
+        from . import zoo
+
+        zoo.run_all(rep, prop, tier)
     if prop == "C05":
         from tucan.io import graph_from_molfile_text
 
